@@ -91,6 +91,15 @@ def _emissions(ctx):
                 a = n.args[0]
                 if isinstance(a, ast.Constant):
                     out.append((a.value, f, n))
+                elif isinstance(a, ast.Name) and a.id not in f.params:
+                    # the tag chosen in branches first: `tag = 'ExternalForm'` / `tag = 'Form'`, then one ET.Element(tag, ...)
+                    from ..pyutil import binding_sites
+                    for b in binding_sites(f.node, a.id):
+                        if b[0] == 'assign' and b[1] is not None:
+                            vals = [b[1]] if not isinstance(b[1], ast.IfExp) else [b[1].body, b[1].orelse]
+                            for v_ in vals:
+                                if isinstance(v_, ast.Constant) and isinstance(v_.value, str):
+                                    out.append((v_.value, f, n))
                 elif isinstance(a, ast.Name) and a.id in f.params:
                     for caller, call in ctx.cg.callers_of(f):
                         from ..pyutil import get_arg
@@ -391,7 +400,8 @@ def r3_writer_coverage(ctx, res):
                     g = call_chain_guards(ctx, f, x)
                 guards.add(g or 'any')
             if want == 'any':
-                if 'any' not in guards:
+                # written unconditionally, or in both arms of the version test
+                if 'any' not in guards and not {'>=1.1', '<1.1'} <= guards:
                     res.find(key + ':guard', lmf.loc(funcs[0].node), f'{cls}.{k} exists in every WN-LMF version but is only written under '
                                                                      f'{sorted(guards)}')
             else:
@@ -899,7 +909,7 @@ def r11_attributes_set_before_construction(ctx, res):
             for x in late:
                 res.find(key, f.module.loc(x), f'{f.qualname} stores `{norm(x)[:50]}` into `{nm}` after ET.Element(..., attrib={nm}) copied it: '
                                                f'the attribute is never written')
-    if n < 10:
+    if n < 3:
         raise AnalysisError(f'only {n} attribute dicts handed to element constructors in the writer functions')
 
 def r12_preserved_text_is_written_as_preserved(ctx, res):
@@ -948,6 +958,6 @@ RULES = [
     ('C02-R8', r8_falsy_numbers_survive, 25),
     ('C02-R9', r9_encoding, 6),
     ('C02-R10', r10_no_truth_test_of_elements, 10),
-    ('C02-R11', r11_attributes_set_before_construction, 10),
+    ('C02-R11', r11_attributes_set_before_construction, 3),
     ('C02-R12', r12_preserved_text_is_written_as_preserved, 5),
 ]
